@@ -31,7 +31,11 @@ var (
 // storage seam.
 func Init() {
 	initOnce.Do(func() {
-		log.InitLog(log.MaxLevelLog) // no writers: discard
+		if os.Getenv("VERIF_SYSLOG") != "" {
+			log.InitLog(log.InfoLog, log.Stdout) // debugging aid: the node's own log on stdout
+		} else {
+			log.InitLog(log.MaxLevelLog) // no writers: discard
+		}
 		scratch = fmt.Sprintf("/dev/shm/ontosim-%d", os.Getpid())
 		os.RemoveAll(scratch)
 		if err := os.MkdirAll(scratch, 0755); err != nil {
